@@ -615,8 +615,16 @@ func (in *Interp) declareThread(fr *frame, name string, fn Value) {
 // RunSched runs a schedule harness. With a "scenarios" parameter the harness
 // is run once per scenario index (in parallel), results are aggregated.
 func RunSched(l *Loaded, fnv interface{}, params map[string]int, workers, timeoutMs int, verbose bool) *HarnessResult {
+	return RunSchedList(l, fnv, params, nil, workers, timeoutMs, verbose)
+}
+
+// RunSchedList: as RunSched; a non-empty list names the scenarios to run.
+func RunSchedList(l *Loaded, fnv interface{}, params map[string]int, list []int, workers, timeoutMs int, verbose bool) *HarnessResult {
 	fn := fnv.(*ssa.Function)
 	n, multi := params["scenarios"]
+	if len(list) > 0 {
+		multi, n = true, len(list)
+	}
 	if !multi {
 		return runSchedOne(l, fn, params, workers, timeoutMs, verbose)
 	}
@@ -629,8 +637,14 @@ func RunSched(l *Loaded, fnv interface{}, params map[string]int, workers, timeou
 	}
 	type job struct{ sc int }
 	jobs := make(chan int, n)
-	for sc := first; sc < n; sc += step {
-		jobs <- sc
+	if len(list) > 0 {
+		for _, sc := range list {
+			jobs <- sc
+		}
+	} else {
+		for sc := first; sc < n; sc += step {
+			jobs <- sc
+		}
 	}
 	close(jobs)
 	var mu sync.Mutex
@@ -648,6 +662,9 @@ func RunSched(l *Loaded, fnv interface{}, params map[string]int, workers, timeou
 				p["scenario"] = sc
 				r := runSchedOne(l, fn, p, 1, timeoutMs, false)
 				mu.Lock()
+				if os.Getenv("VERIF_SCHED_TIMES") != "" {
+					fmt.Fprintf(os.Stderr, "  [scenario %d] wall=%.1fs paths=%d combos=%d viol=%d undecided=%d\n", sc, r.Wall.Seconds(), r.Paths, r.Reached["combinations"], len(r.Violations), len(r.Undecided))
+				}
 				agg.Paths += r.Paths
 				agg.Steps += r.Steps
 				agg.Queries += r.Queries
@@ -822,6 +839,18 @@ func runSchedOne(l *Loaded, fn *ssa.Function, params map[string]int, workers, ti
 			}
 			traces = append(traces, tt)
 		}
+		if round == 0 {
+			// round 0 has no read-from candidates: every thread ran alone from
+			// the common start state. What its client observes there is the
+			// reference of the isolation query.
+			res.soloReplies = make([]map[string]bool, len(traces))
+			for i, tt := range traces {
+				res.soloReplies[i] = map[string]bool{}
+				for _, t := range tt {
+					res.soloReplies[i][replyOf(t)] = true
+				}
+			}
+		}
 		// candidates for the next round (accumulated over the rounds: monotone, so the iteration converges)
 		nsh := buildCandidates(names, traces)
 		mergeCandidates(nsh, shared)
@@ -870,6 +899,17 @@ func runSchedOne(l *Loaded, fn *ssa.Function, params map[string]int, workers, ti
 	phaseB(l, res, names, traces, params, timeoutMs, verbose)
 	res.Wall = time.Since(t0)
 	return res
+}
+
+// replyOf: the "reply" user events of a trace (what the client observes).
+func replyOf(t *ThreadTrace) string {
+	var sb strings.Builder
+	for _, e := range t.Events {
+		if e.Kind == "user" && e.Obj == "reply" {
+			sb.WriteString("[" + strings.Join(e.Args, ",") + "]")
+		}
+	}
+	return sb.String()
 }
 
 func (t *ThreadTrace) sig() string {
@@ -1405,7 +1445,7 @@ func diversify(tt []*ThreadTrace) []*ThreadTrace {
 		sb.WriteString(t.Status)
 		for _, e := range t.Events {
 			switch e.Kind {
-			case "acq", "rel", "user", "chan-close", "chan-recv", "wg-add", "wg-wait":
+			case "acq", "rel", "user", "chan-close", "chan-recv", "wg-add", "wg-wait", "cond-reg", "cond-wait", "cond-bcast":
 				sb.WriteString("|" + e.Kind + e.Obj + e.Mode + strings.Join(e.Args, ","))
 			case "rmw":
 				sb.WriteString(fmt.Sprintf("|rmw%s%+d", e.Obj, e.Delta))
